@@ -30,7 +30,7 @@ class H:
         self.domains = domains
         self.multiclock = multiclock
         self.meta = meta
-        self.init_free = list(init_free)
+        self.init_free = init_free if isinstance(init_free, str) else list(init_free)
         self.init_reset = list(init_reset)
         self.inv = list(inv)
         self.excuses = dict(excuses or {})     # bad name -> list of extra assume signals (narrower twin)
@@ -136,6 +136,11 @@ def run_harness(h, prop, tier, seed=1, replay_dir=None):
         for l in h.excuses.values():
             monitor_sigs |= set(l)
         tr = Translator(h.top, free=set(h.free) | set(h.rigid), clocks=tuple(h.domains or ("sys",)), meta=h.meta).build()
+        if isinstance(h.init_free, str):       # "mem:<name>": symbolic initial content of the writable memory called <name>
+            want = h.init_free.split(":", 1)[1]
+            h.init_free = [s for mem, arr in tr.mem_arrays.items() for s in arr if s in tr.regs and (want == "*" or mem.name_override == want)]
+            if not h.init_free:
+                raise Unsupported("no writable memory named %s" % want)
         missing = [s for s in monitor_sigs if s not in tr.allsigs]
         if missing:
             raise Unsupported("monitor signals not in design: %r" % [s.backtrace[-1][0] for s in missing])
